@@ -157,6 +157,12 @@ def havoc_unknown_callees(unit, text, err):
 
 
 def run(unit, tier="quick", dev=False, only=None):
+    obls, kw = run_unit(unit, tier, dev, only)
+    return vpv.finish(unit["prop"], tier, obls, **kw)
+
+
+def run_unit(unit, tier="quick", dev=False, only=None):
+    """-> (obligations, kwargs for vpv.finish)"""
     t0 = time.time()
     prop = unit["prop"]
     scratch = os.path.join(vpv.SCRATCH_ROOT, "vpv.dev-verus" if dev else f"vpv.{os.getpid()}")
@@ -266,7 +272,7 @@ def run(unit, tier="quick", dev=False, only=None):
                 o.replay = vpv.write_replay(prop, o.finding_keys[0], payload)
         assumptions = scan_assumptions(text)
         verified = js["verification-results"]["verified"]
-        return vpv.finish(prop, tier, obls, level=unit.get("level", "proof"), explanation=unit["explanation"],
+        return obls, dict(level=unit.get("level", "proof"), explanation=unit["explanation"],
                           checker_cmd=cmd + "   (file generated from " + unit["template"] + " + /repo on this run)",
                           trusted_base=VERUS_TRUST + unit.get("trusted_extra", []),
                           assumptions=[f"[scan of generated file] {a}" for a in assumptions] + unit.get("assumptions", []),
